@@ -233,7 +233,7 @@ struct NMResult
 };
 
 // Runs one Nelder-Mead call through a randomly chosen overload; judges descent + state consistency. Returns false if not judged.
-static bool run_nm(Rng& rng, const ObjN& o, std::vector<double> start, std::vector<double> deltas, double ftol, double& f_init_best, double& f_final, bool& nmax_hit, bool& spread_ok, long& evals, uint64_t& exp_, uint64_t& con_, uint64_t& shr_, uint64_t& its_)
+static bool run_nm(Rng& rng, const ObjN& o, std::vector<double> start, std::vector<double> deltas, double ftol, double& f_init_best, double& f_final, bool& nmax_hit, bool& spread_ok, long& evals, uint64_t& exp_, uint64_t& con_, uint64_t& shr_, uint64_t& its_, Minimization* reuse = nullptr)
 {
 	int n = o.n;
 	std::vector<std::vector<double>> pp(n + 1, start);
@@ -244,7 +244,8 @@ static bool run_nm(Rng& rng, const ObjN& o, std::vector<double> start, std::vect
 		f_init_best = std::min(f_init_best, o(v));
 	auto cnt = std::make_shared<long>(0);
 	std::function<double(std::vector<double>)> func = [cnt, &o](std::vector<double> x) { ++*cnt; return o(x); };
-	Minimization M(ftol);
+	Minimization fresh(ftol);
+	Minimization& M = reuse ? *reuse : fresh;	// a caller may keep one object for a whole sequence of minimisations
 	bool same_delta = true;
 	for(int i = 1; i < n; i++)
 		same_delta = same_delta && deltas[i] == deltas[0];
@@ -395,8 +396,44 @@ static void convergence_case(Rng& rng, bool in_regime, bool witness, uint64_t in
 	(void) index;
 }
 
+// one Minimization object reused for a sequence of independent minimisations: every call must converge like a call on a fresh object
+static void reused_object_case(Rng& rng, uint64_t index)
+{
+	int n		= rng.irange(4, 6);
+	double ftol = rng.loguni(1e-10, 1e-6);
+	Minimization M(ftol);
+	int calls = rng.irange(6, 12);
+	set_params(J().i("n", n).d("ftol", ftol).i("calls_on_one_object", calls));
+	hash_param_u(index), hash_param(ftol);
+	mark_nontrivial();
+	for(int c = 0; c < calls; c++)
+	{
+		ObjN o = make_objn(rng, n, true, 1e4);
+		std::vector<double> start(n), deltas(n), dir(n);
+		double dist = rng.loguni(1e-1, 1e2), nr = 0;
+		for(int i = 0; i < n; i++)
+			dir[i] = rng.normal(), nr += dir[i] * dir[i];
+		nr = std::sqrt(nr);
+		for(int i = 0; i < n; i++)
+			start[i] = o.c[i] + dist * dir[i] / nr;
+		double edge = dist * rng.loguni(1.0 / 3.0, 10.0);
+		for(int i = 0; i < n; i++)
+			deltas[i] = rng.sign() * edge * rng.uni(1.0, 1.5);
+		double fi, ff;
+		bool nmax, spread;
+		long evals;
+		uint64_t e, cc, s, its;
+		if(!run_nm(rng, o, start, deltas, ftol, fi, ff, nmax, spread, evals, e, cc, s, its, &M))
+			return;
+		double excess = ff - o.f0, excess0 = fi - o.f0;
+		double tolx	  = std::max(1e4 * ftol * (std::fabs(o.f0) + 1e-10), 1e-3 * excess0) + 64 * EPS * std::fabs(o.f0);
+		judge("nd-convergence-on-a-reused-object", excess, tolx, [&] { return J().i("call_number", c).d("excess", excess).d("initial_excess", excess0).i("nmax_hit", nmax).i("evaluations_this_call", evals).i("nfunc_reported", M.nfunc); });
+	}
+}
+
 static void setup()
 {
+	add_generator("nd_reused_object", ctx().count(600, 60000), reused_object_case);
 	add_generator("d15_witness", 12, [](Rng& rng, uint64_t i) { convergence_case(rng, false, true, i); });
 	add_generator("one_dimensional", ctx().count(100000, 10000000), case_1d);
 	add_generator("nd_descent", ctx().count(15000, 1500000), case_nd_descent);
